@@ -438,5 +438,7 @@ func TestC08Server(t *testing.T) {
 			return C08SrvCase{Legacy: rapid.Bool().Draw(t, "legacy"), Streams: rapid.IntRange(1, 6).Draw(t, "streams"), Calls: rapid.IntRange(0, 3).Draw(t, "calls"), Reopen: rapid.Bool().Draw(t, "reopen")}
 		},
 		Exec: execC08Srv,
-		NT:   func(c C08SrvCase) (bool, []string) { return c.Streams >= 2 || c.Calls > 0, []string{fmt.Sprintf("legacy=%v", c.Legacy)} }})
+		NT: func(c C08SrvCase) (bool, []string) {
+			return c.Streams >= 2 || c.Calls > 0, []string{fmt.Sprintf("legacy=%v", c.Legacy)}
+		}})
 }
